@@ -4,6 +4,7 @@ package sqfs
 import (
 	"go/ast"
 	"go/token"
+	"sort"
 	"strconv"
 
 	"verif/harness/internal/fx"
@@ -79,6 +80,72 @@ func Extract() *fx.Group {
 		g.Str("read_startBlock_expr", fx.Src(e))
 	} else {
 		g.Missing("read_startBlock_expr")
+	}
+	// ---- region model (Model/Sqfs/Regions.lean) ---------------------------------------------------
+	// the order in which Finalize calls its writers, and the FinalizeOptions fields the layout code
+	// consults at all (outside the superblockFlags literal and outside assignments to them)
+	fz := fx.Parse("filesystem/squashfs/finalize.go")
+	if fn := fx.FindFunc(fz, "FileSystem", "Finalize"); fn != nil {
+		writers := map[string]bool{"writeDataBlocks": true, "writeFragmentBlocks": true, "writeInodes": true, "writeDirectories": true,
+			"writeFragmentTable": true, "writeExportTable": true, "writeIDTable": true, "writeXattrs": true}
+		var order []string
+		ast.Inspect(fn.Body, func(n ast.Node) bool {
+			if ce, ok := n.(*ast.CallExpr); ok {
+				if id, ok := ce.Fun.(*ast.Ident); ok && writers[id.Name] {
+					order = append(order, id.Name)
+				}
+			}
+			return true
+		})
+		g.Strs("finalize_writer_order", order)
+	} else {
+		g.Missing("finalize_writer_order")
+	}
+	if fz != nil {
+		seen := map[string]bool{}
+		for _, d := range fz.Decls {
+			fd, ok := d.(*ast.FuncDecl)
+			if !ok || fd.Body == nil {
+				continue
+			}
+			var visit func(n ast.Node) bool
+			visit = func(n ast.Node) bool {
+				switch x := n.(type) {
+				case *ast.CompositeLit:
+					if id, ok := x.Type.(*ast.Ident); ok && id.Name == "superblockFlags" {
+						return false
+					}
+				case *ast.AssignStmt:
+					// options.X = true (forcing the flags when there is no compressor): look at the RHS only
+					for _, r := range x.Rhs {
+						ast.Inspect(r, visit)
+					}
+					for _, l := range x.Lhs {
+						if se, ok := l.(*ast.SelectorExpr); ok {
+							if id, ok := se.X.(*ast.Ident); ok && id.Name == "options" {
+								continue
+							}
+						}
+						ast.Inspect(l, visit)
+					}
+					return false
+				case *ast.SelectorExpr:
+					if id, ok := x.X.(*ast.Ident); ok && id.Name == "options" {
+						seen[x.Sel.Name] = true
+					}
+				}
+				return true
+			}
+			ast.Inspect(fd.Body, visit)
+		}
+		var names []string
+		for k := range seen {
+			names = append(names, k)
+		}
+		sort.Strings(names)
+		g.Strs("finalize_options_consulted", names)
+	} else {
+		g.Missing("finalize_options_consulted")
 	}
 	return g
 }
